@@ -159,6 +159,100 @@ func c10Gen(tier string, rng *rand.Rand, emit func(string)) map[string]interface
 		}
 	}
 
+	// (1c) several independent root publishers alive in one case, from both constructors (r:g = PublisherNewGenerics,
+	// r:i = Publisher.New(), the interface{} twin), interleaved Subscribe / Publish: publishers are independent.
+	// Bounded-exhaustive: 2 extra roots of every kind pair, all interleavings of <= 3 subscribes on each (no
+	// Unsubscribe), publishes on both after every prefix length; then random histories over 2-3 roots (+ publisher 0).
+	for _, k1 := range []string{"g", "i"} {
+		for _, k2 := range []string{"g", "i"} {
+			for n1 := 1; n1 <= 3; n1++ {
+				for n2 := 1; n2 <= 3; n2++ {
+					// all interleavings of n1 subscribes on root 1 and n2 on root 2
+					var inter func(a, b int, toks []string)
+					inter = func(a, b int, toks []string) {
+						if a == n1 && b == n2 {
+							line := append([]string{"r:" + k1, "r:" + k2}, toks...)
+							line = append(line, "p@1:1", "p@2:2", "c@1", "c@2", "s@1:u0", "s@2", "p@1:3", "p@2:4", "p@1:5")
+							out("roots", "seq: "+strings.Join(line, " ; "))
+							return
+						}
+						if a < n1 {
+							inter(a+1, b, append(append([]string{}, toks...), "s@1"))
+						}
+						if b < n2 {
+							inter(a, b+1, append(append([]string{}, toks...), "s@2"))
+						}
+					}
+					inter(0, 0, nil)
+				}
+			}
+		}
+	}
+	nRoots := 600
+	if thorough {
+		nRoots = 6000
+	}
+	for i := 0; i < nRoots; i++ {
+		nr := 2 + rng.Intn(2)
+		var toks []string
+		nsub := make([]int, nr+1)
+		created := 0
+		v := 0
+		for j, nops := 0, 8+rng.Intn(20); j < nops; j++ {
+			if created < nr && (j == 0 || rng.Intn(4) == 0) {
+				toks = append(toks, "r:"+[]string{"i", "i", "g"}[rng.Intn(3)])
+				created++
+				continue
+			}
+			q := rng.Intn(created + 1)
+			r := rng.Intn(100)
+			switch {
+			case r < 45 && nsub[q] < 6:
+				toks = append(toks, strings.Replace(c10SubTok(c10RandScript(rng, 2, false)), "s", "s@"+strconv.Itoa(q), 1))
+				nsub[q]++
+			case r < 50:
+				toks = append(toks, fmt.Sprintf("z@%d", q))
+				nsub[q]++
+			case r < 58:
+				toks = append(toks, fmt.Sprintf("u@%d:%d", q, 1+rng.Intn(nsub[q]+1)))
+			case r < 92:
+				v++
+				toks = append(toks, fmt.Sprintf("p@%d:%d", q, v))
+			default:
+				toks = append(toks, fmt.Sprintf("c@%d", q))
+			}
+		}
+		for q := 0; q <= created; q++ {
+			v++
+			toks = append(toks, fmt.Sprintf("p@%d:%d", q, v))
+		}
+		out("roots", "seq: "+strings.Join(toks, " ; "))
+	}
+	// the interface{} twin under the other generators' shapes: re-entrant scripts, Map, SubscribeOn, parked Publish
+	for _, lay := range [][]string{
+		{"r:i", "s@1:u0", "s@1", "s@1", "p@1:1", "c@1", "p@1:2"},
+		{"r:i", "s@1:p", "s@1:n,u-1", "p@1:1", "c@1"},
+		{"r:i", "s@1", "m@1:a", "s@2", "m@2:z", "s@3", "p@1:0", "p@1:5"},
+		{"r:i", "h@1", "s@1:n", "s@1", "p@1:6", "p@1:7"},
+		{"r:i", "r:i", "h@1", "m@1:a", "s@3", "s@2", "s@1", "p@1:1", "p@2:2"},
+		{"r:i", "r:i", "s@1", "s@2", "s@1", "z@2", "s@2", "s@1", "s@1", "s@1", "s@2", "p@1:1", "p@2:2", "c@1", "c@2"},
+	} {
+		out("roots", "seq: "+strings.Join(lay, " ; "))
+	}
+	for pos := 0; pos <= 3; pos++ {
+		for _, op := range []string{"s@2", "s@1", "u@1:1", "p@2:9"} {
+			toks := []string{"r:i", "r:i", "s@1", "s@2", "s@1", "go1@1:1"}
+			for k := 0; k <= 3; k++ {
+				if k == pos {
+					toks = append(toks, op)
+				}
+				toks = append(toks, "adv1")
+			}
+			toks = append(toks, "fin1", "p@1:2", "p@2:3", "c@1", "c@2")
+			out("roots", "sched: "+strings.Join(toks, " ; "))
+		}
+	}
+
 	// (2) random longer histories on one publisher
 	nRandom := 1500
 	if thorough {
